@@ -228,9 +228,8 @@ class Ref:
 
     def struct(self, tname, d, path, enc=False):
         fl = [list(f) for f in d["fields"]]
-        if enc and d.get("params_base"):
-            if not fl or not (fl[0][1] or "").startswith("TPM2B"):
-                raise Problem("enc_unsupported", tname=tname, pos=self.pos)
+        if enc and d.get("params_base") and fl and (fl[0][1] or "").startswith("TPM2B"):
+            # only a sized buffer can be encrypted; any other parameter area keeps its plain layout
             fl[0][1] = "TPM2B_ENCRYPTED_PARAM"
         self.emit(path, tname)
         vals = {}
